@@ -634,7 +634,19 @@ def rule_inv_panic(ctx):
 def _validate_roles(ctx):
     if 'validate_roles' not in ctx.cache:
         from .rules_config import _validate_role
-        ctx.cache['validate_roles'] = set(_validate_role(ctx))
+        vs = set(_validate_role(ctx))
+        # private helpers called by nothing but the validation (one check per duration, extracted)
+        callers = ctx.prog.callers()
+        changed = True
+        while changed:
+            changed = False
+            for v in sorted(vs):
+                for c in ctx.prog.callees(v):
+                    cb = ctx.prog.bodies.get(c)
+                    if c not in vs and cb is not None and cb.kind != 'closure' and callers.get(c) and \
+                            all((ctx.prog.bodies[x].root if ctx.prog.bodies[x].kind == 'closure' and ctx.prog.bodies[x].root else x) in vs for x in callers[c]):
+                        vs.add(c); changed = True
+        ctx.cache['validate_roles'] = vs
     return ctx.cache['validate_roles']
 
 
@@ -660,6 +672,33 @@ def rule_inv_unsafe(ctx):
             if g.endswith('::') and ((' as ' + g) in root or fmod == g):
                 return g
         return None
+    classes = table['cache_level_ops']
+
+    def class_of(callee, st_):
+        for k_, ent in classes.items():
+            if callee == ent['callee'] and (not ent.get('on') or st_ == ent['on']):
+                return k_
+        if callee in prog.bodies and prog.bodies[callee].unsafe_fn and group_of(callee):
+            return 'list-operation'
+        if callee in prog.bodies and prog.bodies[callee].unsafe_fn and transparent(callee):
+            return 'reviewed-helper'
+        return None
+
+    def transparent(fn, _seen=()):
+        """An `unsafe fn` outside the pointer modules that only packages operations of the reviewed classes (it reads a deque node through its
+        pointer / calls a guarded list operation) and touches no raw pointer itself: extracting such a helper from an unsafe block moves the
+        obligation to its callers' unsafe blocks, which are inventoried here like any other."""
+        key_ = ('transparent-unsafe-fn', fn)
+        if key_ not in ctx.cache:
+            ctx.cache[key_] = False
+            b_ = prog.bodies.get(fn)
+            if b_ is not None and b_.unsafe_fn and fn not in _seen:
+                group_ = [b_] + [bc for bc in prog.bodies.values() if bc.kind == 'closure' and bc.root == fn]
+                ops_ = [(norm(t.get('callee') or ''), (t.get('self_ty') or {}).get('adt') or '') for bx in group_ for _, t in bx.calls()
+                        if t.get('callee_unsafe') and not t.get('exp')]
+                raw_ = any(str(l_['ty']['s']).startswith(('*const', '*mut')) for bx in group_ for l_ in bx.locals)
+                ctx.cache[key_] = bool(ops_) and not raw_ and all(class_of(c_, s_) is not None for c_, s_ in ops_ if c_ != fn)
+        return ctx.cache[key_]
     c = Counter()
     cache_level = []
     for u in ctx.facts['unsafe_blocks']:
@@ -674,7 +713,6 @@ def rule_inv_unsafe(ctx):
         r.instance(group=g, unsafe_blocks=n, reviewed='module', obligation=ent['obligation'], discharged_by=ent['by'])
     # cache-level unsafe blocks: wherever they live (the enclosing function may be split, merged or renamed), each may only perform
     # operations of a reviewed class
-    classes = table['cache_level_ops']
     for u in cache_level:
         owner = norm(u['owner'])
         b = prog.bodies.get(owner)
@@ -692,12 +730,7 @@ def rule_inv_unsafe(ctx):
                       'static mut, union access): not a reviewed class of unsafe code outside the pointer modules' % owner, where=where_)
             continue
         for callee, st_ in ops:
-            cls = None
-            for k_, ent in classes.items():
-                if callee == ent['callee'] and (not ent.get('on') or st_ == ent['on']):
-                    cls = k_
-            if cls is None and callee in prog.bodies and prog.bodies[callee].unsafe_fn and group_of(callee):
-                cls = 'list-operation'
+            cls = class_of(callee, st_)
             r.instance(unsafe_block_in=owner, operation=callee, on=st_, klass=cls,
                        obligation=(classes.get(cls) or {}).get('obligation', 'membership of the node in the deque: PTR-guarded-call decides every such call site'))
             if cls is None:
@@ -706,6 +739,9 @@ def rule_inv_unsafe(ctx):
     ufns = sorted(b.nid for b in prog.bodies.values() if b.unsafe_fn)
     for fn in ufns:
         ok = fn in table['unsafe_fns'] or any(fn.startswith(g) for g in table['module_groups']) or group_of(fn) is not None
+        if not ok and transparent(fn):
+            r.instance(unsafe_fn=fn, reviewed='only packages reviewed classes of unsafe operations; its call sites are inventoried as unsafe blocks')
+            continue
         r.instance(unsafe_fn=fn, reviewed=ok)
         if not ok:
             r.violate(fn, 'unreviewed-unsafe', 'unsafe fn', 'new unsafe fn %s' % fn, where=ctx.where(fn))
